@@ -16,7 +16,7 @@ ROLES = ["FeatureLine", "RuleLine", "BackgroundLine", "ScenarioLine", "ExamplesL
 ROLE_CATS = {"FeatureLine": ["feature"], "RuleLine": ["rule"], "BackgroundLine": ["background"], "ScenarioLine": ["scenario", "scenarioOutline"],
              "ExamplesLine": ["examples"]}
 TITLES = ["", " name here ", "x", " issue #", " see ticket ##  ", " #", " C# and F#", " trailing colon: ", " `@tag` in title",
-          ":smile: works", ":", "::x", " : spaced", "\ttab before", " #", "# x", " - x", "* y", " | a |", "\u00e9", ":\u00a0", " a:b", "\uff1a x", " x \\", " <a>", " \"\"\"", " eating \\<count\\> cucumbers", " C:\\>dir", " \\< \\\\> \\&", " the `@wip` and `@slow` markers", " `@a``@b`"]
+          ":smile: works", ":", "::x", " : spaced", "\ttab before", " #", "# x", " - x", "* y", " | a |", "\u00e9", ":\u00a0", " a:b", "\uff1a x", " x \\", " <a>", " \"\"\"", " eating \\<count\\> cucumbers", " C:\\>dir", " \\< \\\\> \\&", " the `@wip` and `@slow` markers", " `@a``@b`", " R&amp;D budget", " eating &lt;count&gt; cukes", " mail&#64;example &copy", " a &amp b &", " 100%% sure %s {0}"]
 
 
 def tok(line):
@@ -203,7 +203,7 @@ def unit_steps(a):
                 for hdr in ("# ", "## ", " ###### "):
                     yield {"sub": "cross", "dialect": d, "line": hdr + kw + "x"}
                 # a list marker in the MIDDLE of a line starts nothing
-                for tmpl in ("some prose - %sy", "3 cukes * %sz", "The **%sthe stack is empty** part", "a+%sb", "x: - %sy", "|- %sy"):
+                for tmpl in ("some prose - %sy", "3 cukes * %sz", "The **%sthe stack is empty** part", "a+%sb", "x: - %sy", "|- %sy", "1. %sy", "2) %sy", "10. %sy", "a. %sy", "> %sy", "| %sy", "[ ] %sy", "(1) %sy", "\u2022 %sy", "\u2013 %sy"):
                     yield {"sub": "cross", "dialect": d, "line": tmpl % kw}
             for cat in TITLE_CATS:
                 for kw in D[cat][:1]:
